@@ -1,7 +1,325 @@
-//! C14 — not implemented yet.
+//! C14 — writers never hide a sink failure and tolerate short writes.
+//!
+//! Per writer family (format driver): a generated document is written once to a healthy sink
+//! (which counts the sink calls), then
+//!  (a) for **every** call index k (all k up to `MAX_K`, a stratified sample above) the sink fails at
+//!      its k-th call with a generated `ErrorKind`, sticky or transient: if the failure was actually
+//!      delivered to noodles, some write/flush/finish call must return `Err`;
+//!  (b) the healthy output decodes to exactly the document (compared with an expectation derived
+//!      from the document, not from a second write) and is well-formed BGZF where applicable;
+//!  (c) sinks that accept only part of each buffer or return `Interrupted` (finite placements)
+//!      produce byte-identical output.
+//! (d) — drop of an unfinished BGZF writer — is decided by C01 (`End::Drop`), and re-checked here for
+//! the single-threaded BGZF writer over a faulty-free sink.
 
+use crate::drivers::{self, Delivery, Doc, Driver, Ev, ReadOpts, summarize};
+use crate::engine::shard::ClosureSub;
 use crate::engine::*;
+use crate::r#gen::payload::XorShift;
+use crate::io_adv::faulty::{DynSink, FaultKind, FaultySink, SinkScript};
+use crate::oracle::bgzf_walk;
+use proptest::prelude::*;
+use serde::{Deserialize, Serialize};
+use std::sync::Arc;
+
+const MAX_K: usize = 400;
+
+#[derive(Clone, Debug, Serialize, Deserialize)]
+pub struct Case {
+    pub doc: Doc,
+    pub seed: u32,
+    /// short-write script: accepted sizes
+    pub accept: Vec<u32>,
+    pub interrupts: Vec<bool>,
+    /// restrict the fault enumeration to one call index (hand-written replays)
+    pub only_k: Option<u32>,
+}
+
+fn run_write(drv: &dyn Driver, doc: &Doc, script: SinkScript) -> (std::io::Result<()>, crate::io_adv::faulty::SinkLog) {
+    let mut sink = FaultySink::new(script);
+    let res = match drv.write_owned(doc, sink.boxed_clone()) {
+        Some(r) => r,
+        None => drv.write(doc, &mut sink),
+    };
+    (res, sink.snapshot())
+}
+
+const KINDS: [FaultKind; 5] = [FaultKind::Other, FaultKind::BrokenPipe, FaultKind::StorageFull, FaultKind::WriteZero, FaultKind::PermissionDenied];
+
+/// What reading the healthy output must give, derived from the document itself.
+fn expected_records(drv: &dyn Driver, doc: &Doc) -> Option<Vec<String>> {
+    match (drv.family(), doc) {
+        (drivers::Family::Alignment, Doc::Aln(d)) if drv.name() != "cram" => {
+            let (_, recs) = drivers::sync::parse_sam(&d.sam_text("unsorted")).ok()?;
+            Some(recs.iter().map(|r| format!("{r:?}")).collect())
+        }
+        (drivers::Family::Variant, Doc::Var(d)) => {
+            let (_, recs) = drivers::sync::parse_vcf(&d.vcf_text()).ok()?;
+            Some(recs.iter().map(|r| format!("{r:?}")).collect())
+        }
+        (drivers::Family::Text, Doc::Text(t)) => {
+            // the document text read from a plain slice
+            let data = Arc::new(t.render());
+            let (tr, _) = drv.read(&data, &Delivery::Plain, doc, &ReadOpts::default());
+            if tr.iter().any(|e| matches!(e, Ev::Err { .. } | Ev::Runaway)) {
+                return None;
+            }
+            Some(drivers::records_of(&tr).into_iter().cloned().collect())
+        }
+        _ => None,
+    }
+}
+
+fn check(drv: &dyn Driver, c: &Case) -> Verdict {
+    let name = drv.name();
+    // healthy run
+    let (res, healthy) = run_write(drv, &c.doc, SinkScript::default());
+    if let Err(e) = res {
+        return fail1(format!("c14.baseline-write-error:{name}"), format!("writing the generated document to a healthy sink failed: {e}"));
+    }
+    let mut fails = Fails::new();
+    let n_calls = healthy.calls as usize;
+
+    // (b) healthy output decodes to the document
+    let data = Arc::new(healthy.bytes.clone());
+    let (tr, _) = drv.read(&data, &Delivery::Plain, &c.doc, &ReadOpts::default());
+    if !matches!(tr.last(), Some(Ev::Eof)) || tr.iter().any(|e| matches!(e, Ev::Err { .. } | Ev::Runaway)) {
+        fails.push(format!("c14.output-unreadable:{name}"), format!("all calls returned Ok but the sink does not read back cleanly: {}", summarize(&tr)));
+    } else if let Some(exp) = expected_records(drv, &c.doc) {
+        let got: Vec<String> = drivers::records_of(&tr).into_iter().cloned().collect();
+        if got != exp {
+            let i = got.iter().zip(exp.iter()).position(|(a, b)| a != b).unwrap_or(got.len().min(exp.len()));
+            fails.push(
+                format!("c14.output-differs:{name}"),
+                format!(
+                    "all calls returned Ok but record {i} of {} read back differs from the document ({} expected): got={} expected={}",
+                    got.len(),
+                    exp.len(),
+                    got.get(i).map(|s| trunc(s, 400)).unwrap_or("<none>".into()),
+                    exp.get(i).map(|s| trunc(s, 400)).unwrap_or("<none>".into())
+                ),
+            );
+        }
+    }
+    if drv.is_bgzf() {
+        match bgzf_walk::walk(&healthy.bytes) {
+            Ok(_) => {
+                if healthy.bytes.len() < 28 || healthy.bytes[healthy.bytes.len() - 28..] != bgzf_walk::EOF_MARKER {
+                    fails.push(format!("c14.no-eof-marker:{name}"), "finished BGZF output does not end with the EOF marker".to_string());
+                }
+            }
+            Err(e) => fails.push(format!("c14.malformed-bgzf:{name}"), e),
+        }
+    }
+
+    // (c) short writes / interrupts: byte identical — unless the writer is not a deterministic
+    // function of its input even on a healthy sink (then: same decoded content)
+    let (res2, healthy2) = run_write(drv, &c.doc, SinkScript::default());
+    let deterministic = res2.is_ok() && healthy2.bytes == healthy.bytes;
+    let same_output = |bytes: &Vec<u8>| -> bool {
+        if deterministic {
+            *bytes == healthy.bytes
+        } else {
+            let d2 = Arc::new(bytes.clone());
+            let (t2, _) = drv.read(&d2, &Delivery::Plain, &c.doc, &ReadOpts::default());
+            t2 == tr
+        }
+    };
+    let mut short_nontrivial = false;
+    {
+        let script = SinkScript { accept: c.accept.clone(), ..SinkScript::default() };
+        let (res, log) = run_write(drv, &c.doc, script);
+        short_nontrivial |= log.short_writes > 0;
+        match res {
+            Err(e) => fails.push(format!("c14.short-write-error:{name}"), format!("a sink that accepts part of each buffer made the writer fail: {e}")),
+            Ok(()) => {
+                if !same_output(&log.bytes) {
+                    fails.push(
+                        format!("c14.short-write-differs:{name}"),
+                        format!("output under short writes ({} bytes) differs from the plain output ({} bytes), first difference at {:?}", log.bytes.len(), healthy.bytes.len(), super::c01::first_diff(&log.bytes, &healthy.bytes)),
+                    );
+                }
+            }
+        }
+        let mut intr = c.interrupts.clone();
+        if !intr.iter().any(|b| *b) {
+            intr = vec![true, false, false];
+        }
+        if !intr.iter().any(|b| !*b) {
+            intr.push(false);
+        }
+        let script = SinkScript { accept: c.accept.clone(), interrupts: intr, ..SinkScript::default() };
+        let (res, log) = run_write(drv, &c.doc, script);
+        match res {
+            Err(e) => fails.push(format!("c14.interrupted-write-error:{name}"), format!("a sink returning ErrorKind::Interrupted made the writer fail: {e} (kind {:?})", e.kind())),
+            Ok(()) => {
+                if !same_output(&log.bytes) {
+                    fails.push(
+                        format!("c14.interrupted-write-differs:{name}"),
+                        format!("output under Interrupted ({} bytes) differs from the plain output ({} bytes), first difference at {:?}", log.bytes.len(), healthy.bytes.len(), super::c01::first_diff(&log.bytes, &healthy.bytes)),
+                    );
+                }
+            }
+        }
+    }
+
+    // (a) failure at call k
+    let ks: Vec<usize> = if let Some(k) = c.only_k {
+        vec![k as usize]
+    } else if n_calls <= MAX_K {
+        (0..n_calls).collect()
+    } else {
+        let mut v: Vec<usize> = (0..20).chain(n_calls - 20..n_calls).collect();
+        let mut r = XorShift::new(c.seed as u64 + 99);
+        let stride = n_calls / (MAX_K - 40);
+        let mut x = 20;
+        while x < n_calls - 20 {
+            v.push(x + (r.next() as usize % stride.max(1)));
+            x += stride.max(1);
+        }
+        v.sort_unstable();
+        v.dedup();
+        v.retain(|k| *k < n_calls);
+        v
+    };
+    let mut rng = XorShift::new(c.seed as u64 + 1);
+    let mut delivered = 0u64;
+    let mut interior = 0u64;
+    for k in &ks {
+        let x = rng.next();
+        let kind = KINDS[(x % 5) as usize];
+        let sticky = (x >> 8) % 2 == 0;
+        let script = SinkScript { fail_at: Some(*k as u32), kind: Some(kind), sticky, ..SinkScript::default() };
+        let (res, log) = run_write(drv, &c.doc, script);
+        if log.errors_delivered > 0 {
+            delivered += 1;
+            if *k > 2 && *k + 1 < n_calls {
+                interior += 1;
+            }
+            if res.is_ok() {
+                fails.push(
+                    format!("c14.error-swallowed:{name}"),
+                    format!(
+                        "the sink failed at its call {k} of {n_calls} ({kind:?}, {}) — {} error(s) delivered — yet every write/flush/finish call of the writer returned Ok; sink holds {} of {} bytes",
+                        if sticky { "sticky" } else { "transient" },
+                        log.errors_delivered,
+                        log.bytes.len(),
+                        healthy.bytes.len()
+                    ),
+                );
+            }
+        }
+    }
+    let all_k = c.only_k.is_none() && n_calls <= MAX_K;
+    fails.finish(
+        Pass::new(interior > 0 || short_nontrivial, key_of(&c.doc))
+            .evals(ks.len() as u64 + 3)
+            .label_if(all_k, "every-call-index")
+            .label_if(!all_k, "sampled-call-indices")
+            .label_if(interior > 0, "fault-between-header-and-last-call")
+            .label_if(short_nontrivial, "short-writes-delivered")
+            .label_if(n_calls > 50, "calls>50")
+            .label_if(delivered == 0, "no-fault-delivered")
+            .label_if(!deterministic, "nondeterministic-writer(content-compared)"),
+    )
+}
+
+/// (d) dropping an unfinished single-threaded BGZF writer emits the buffered data and the EOF block.
+fn check_drop(c: &Case) -> Verdict {
+    use noodles_bgzf as bgzf;
+    use std::io::Write as _;
+    let Doc::Bytes { payload, flushes, .. } = &c.doc else { return fail1("c14.harness", "wrong doc") };
+    let data = payload.expand();
+    let sink = FaultySink::new(SinkScript { accept: c.accept.clone(), ..SinkScript::default() });
+    {
+        let mut w = bgzf::io::Writer::new(sink.clone());
+        let mut points: Vec<usize> = flushes.iter().map(|p| (*p as usize % 1001) * data.len() / 1000).collect();
+        points.sort_unstable();
+        let mut off = 0;
+        for p in points {
+            w.write_all(&data[off..p]).map_err(|e| vec![Fail::new("c14.drop.write-error", format!("{e}"))])?;
+            off = p;
+        }
+        w.write_all(&data[off..]).map_err(|e| vec![Fail::new("c14.drop.write-error", format!("{e}"))])?;
+        // no finish: drop
+    }
+    let bytes = sink.snapshot().bytes;
+    let members = bgzf_walk::walk(&bytes).map_err(|e| vec![Fail::new("c14.drop.malformed", e)])?;
+    crate::ensure!(bgzf_walk::concat(&members) == data, "c14.drop.data-lost", "dropping the writer lost buffered data: {} of {} bytes present", bgzf_walk::concat(&members).len(), data.len());
+    crate::ensure!(bytes.len() >= 28 && bytes[bytes.len() - 28..] == bgzf_walk::EOF_MARKER, "c14.drop.no-eof", "dropping the writer did not emit the EOF block");
+    Ok(Pass::new(!data.is_empty(), key_of(c)).label_if(data.len() > 65495, "multi-block"))
+}
+
+pub const DRIVERS: &[&str] = &[
+    "bgzf", "bgzf-mt", "bam", "bam-raw", "sam", "sam.gz", "cram", "vcf", "vcf.gz", "bcf", "bcf-raw", "fasta", "fastq", "gff", "gtf", "bed3", "bed4", "bed5", "bed6", "bai", "csi", "tabix", "gzi", "fai", "crai",
+];
 
 pub fn property() -> Property {
-    Property { id: "C14", level: "exploration", rule: "", assumptions: vec![], subs: vec![], max_parallel: 16 }
+    let mut subs: Vec<Box<dyn DynSub>> = Vec::new();
+    for dname in DRIVERS {
+        let dname: &'static str = dname;
+        let (q, t) = match dname {
+            "cram" => (30, 800),
+            "bgzf" | "bgzf-mt" => (40, 1000),
+            _ => (60, 1500),
+        };
+        subs.push(
+            ClosureSub::<Case> {
+                name: dname.to_string(),
+                rule: "one case = one document: healthy write, short-write run, interrupted run, and a failing run for every sink call index k (all k ≤ 400, stratified sample above) with generated ErrorKind and stickiness; evaluations counts writer runs; non-trivial = a fault was delivered strictly between the first calls and the last call, or a short write was delivered; distinct by hash of the document".into(),
+                strategy: Box::new(move |tier| {
+                    let d = drivers::by_name(dname).unwrap();
+                    let doc = if dname.starts_with("bgzf") {
+                        use crate::r#gen::payload::payload;
+                        (payload(tier.pick(140_000, 260_000)), proptest::collection::vec(0u16..=1000, 0..5), proptest::option::of(0u8..=9)).prop_map(|(payload, flushes, level)| Doc::Bytes { payload, flushes, level }).boxed()
+                    } else {
+                        d.doc(tier)
+                    };
+                    (doc, any::<u32>(), proptest::collection::vec(prop_oneof![1u32..4, 1u32..200, 1u32..70000], 1..4), proptest::collection::vec(any::<bool>(), 1..5))
+                        .prop_map(|(doc, seed, accept, interrupts)| Case { doc, seed, accept, interrupts, only_k: None })
+                        .boxed()
+                }),
+                check: Box::new(move |c| {
+                    let d = drivers::by_name(dname).unwrap();
+                    check(d.as_ref(), c)
+                }),
+                quick: q,
+                thorough: t,
+                opts: SubOpts { max_shards: 8, isolate: true, hang_is_violation: true, case_budget_s: 30, max_shrink_iters: 80, ..SubOpts::default() },
+            }
+            .boxed(),
+        );
+    }
+    subs.push(
+        ClosureSub::<Case> {
+            name: "bgzf-drop".into(),
+            rule: "unfinished bgzf::io::Writer dropped over a short-writing sink: buffered data and EOF block present; non-trivial = non-empty payload".into(),
+            strategy: Box::new(|tier| {
+                use crate::r#gen::payload::payload;
+                (
+                    (payload(tier.pick(140_000, 260_000)), proptest::collection::vec(0u16..=1000, 0..5)).prop_map(|(payload, flushes)| Doc::Bytes { payload, flushes, level: None }),
+                    proptest::collection::vec(prop_oneof![1u32..4, 1u32..200, 1u32..70000], 0..4),
+                )
+                    .prop_map(|(doc, accept)| Case { doc, seed: 0, accept, interrupts: vec![], only_k: None })
+                    .boxed()
+            }),
+            check: Box::new(check_drop),
+            quick: 300,
+            thorough: 6000,
+            opts: SubOpts::default(),
+        }
+        .boxed(),
+    );
+    Property {
+        id: "C14",
+        level: "fault_enumeration",
+        rule: "document per writer family × sink script: failure at every sink call index (write and flush calls counted together) × ErrorKind × sticky/transient; short-write and Interrupted patterns",
+        assumptions: vec![
+            "a scripted failure counts only when the sink actually returned it to a noodles call (the sink logs every error it delivered)".into(),
+            "the expectation for 'decodes to exactly what was written' is derived from the document (SAM/VCF text parsed from a plain slice), CRAM and index value equality are decided by C07/C17".into(),
+            "after a multithreaded BGZF writer has returned an error the harness only drops it".into(),
+        ],
+        subs,
+        max_parallel: 16,
+    }
 }
